@@ -25,6 +25,7 @@ from agilerl.typing import (
     TensorDict,
     TorchObsType,
 )
+from agilerl.utils import verif_hooks
 from agilerl.utils.algo_utils import (
     concatenate_experiences_into_batches,
     concatenate_tensors,
@@ -647,6 +648,22 @@ class IPPO(MultiAgentRLAlgorithm):
                     + self.gamma * self.gae_lambda * next_non_terminal * last_gae_lambda
                 )
 
+            if verif_hooks.ENABLED:
+                # (num_steps, num_agents * num_envs) matrices, before they are flattened
+                verif_hooks.record(
+                    "ippo.gae",
+                    agent_ids=list(states.keys()),
+                    rewards=rewards,
+                    dones=dones,
+                    values=values,
+                    next_value=next_value,
+                    next_done=next_done,
+                    advantages=advantages,
+                    returns=advantages + values,
+                    gamma=self.gamma,
+                    gae_lambda=self.gae_lambda,
+                )
+
             advantages = advantages.reshape((-1,))
             values = values.reshape((-1,))
             returns = advantages + values
@@ -665,6 +682,17 @@ class IPPO(MultiAgentRLAlgorithm):
 
         # Move experiences to algo device
         experiences = self.to_device(*experiences)
+
+        if verif_hooks.ENABLED:
+            verif_hooks.record(
+                "ippo.rows",
+                states=experiences[0],
+                actions=experiences[1],
+                log_probs=experiences[2],
+                advantages=experiences[3],
+                returns=experiences[4],
+                values=experiences[5],
+            )
 
         num_samples = experiences[4].size(0)
         batch_idxs = np.arange(num_samples)
